@@ -62,30 +62,11 @@ open PatVerif.Generated.FeLimbs PatVerif.Generated.EdPoints
 
 def z : Element := ⟨0, 0, 0, 0, 0⟩
 
-/-- `(*Point).SetBytes` (not translated: it branches on errors), restated over the translated field functions -/
-def decode (x : Bytes) : Option Point :=
-  if x.length ≠ 32 then none else
-  match SetBytes z (x.map UInt8.toNat) with
-  | .ok y =>
-    let y2 := Square z y
-    let u := Subtract z y2 PatVerif.Generated.EdPoints.feOne
-    let vv := Multiply z y2 PatVerif.Generated.EdPoints.d
-    let vv := PatVerif.Generated.FeLimbs.Add vv vv PatVerif.Generated.EdPoints.feOne
-    let r := SqrtRatio z u vv
-    if r.2 = 0 then none else
-    let xx := r.1
-    let xxNeg := Negate z xx
-    let xx := Select xx xxNeg xx ((x.getD 31 0).toNat / 128)
-    some ⟨xx, y, One z, Multiply z xx y⟩
-  | _ => none
+/-- `(*Point).SetBytes`, the translated function -/
+def decode (x : Bytes) : Option Point := Point_SetBytes ⟨z, z, z, z⟩ (x.map UInt8.toNat)
 
-/-- `(*Point).bytes`, restated over the translated field functions -/
-def encode (v : Point) : Bytes :=
-  let zInv := Invert z v.z
-  let x := Multiply z v.x zInv
-  let y := Multiply z v.y zInv
-  let out := Bytes y
-  (out.set 31 (out.getD 31 0 ||| (IsNegative x * 128))).map UInt8.ofNat
+/-- `(*Point).Bytes`, the translated `bytes` -/
+def encode (v : Point) : Bytes := (Point_bytes v (List.replicate 32 0)).map UInt8.ofNat
 
 def run (op : String) (a b : Bytes) : String :=
   let needB := op = "add" ∨ op = "sub" ∨ op = "equal"
